@@ -26,11 +26,15 @@ BASE = {
               "  subroutine gw()\n    lv%alpha = 1\n  end subroutine gw\nend module g3m\n",
     "sp1.f90": "module par\n  interface\n    module subroutine foo(x, y)\n      integer, intent(in) :: x\n      real, intent(out) :: y\n    end subroutine foo\n  end interface\nend module par\n",
     "sp2.f90": "submodule (par) subp\ncontains\n  module procedure foo\n    y = x\n  end procedure foo\nend submodule subp\n",
+    "sf1.f90": "module fpar\n  interface\n    module function mf(a) result(r)\n      integer :: a\n      real :: r\n    end function mf\n  end interface\nend module fpar\n",
+    "sf2.f90": "submodule (fpar) fchild\ncontains\n  module function mf(a) result(r)\n    integer :: a\n    real :: r\n    r = a\n  end function mf\nend submodule fchild\n",
     "w.f90": "subroutine uses_inc()\n  include 'inc.f90'\n  from_inc = 1\nend subroutine uses_inc\n",
 }
 
 BASE_B1_RENAMED = BASE["b1.f90"].replace("impl", "impl2").replace("fres", "fres2")
 BASE_B1_SIG = BASE["b1.f90"].replace("subroutine impl(self, n)", "subroutine impl(self, n, extra)").replace("    integer :: n\n", "    integer :: n\n    integer :: extra\n")
+BASE_SM1_ARGS = BASE["sm1.f90"].replace("ms(a)", "ms(a, bb)").replace("      integer :: a\n", "      integer :: a\n      real :: bb\n")
+BASE_SF1_ARGS = BASE["sf1.f90"].replace("mf(a) result(r)", "mf(a, bb) result(rr)").replace("real :: r\n", "integer :: rr\n      real :: bb\n")
 BASE_SM1_RENAMED = BASE["sm1.f90"].replace("parentm", "parentm2")
 
 # each history: list of (op, file, new text or None); ops: save (write to disk + didSave), change (didChange full text,
@@ -73,6 +77,13 @@ HISTORIES = {
     "duplicate_module_then_delete": [("create", "dup.f90", "module g1m\n  integer :: from_dup\nend module g1m\n"),
                                      ("delete", "dup.f90", None)],
     "query_then_rename_submodule_prototype": [("query", None, None), ("save", "sp1.f90", BASE["sp1.f90"].replace("foo", "foo_other"))],
+    "prototype_arguments_change_then_prototype_removed": [("save", "sm1.f90", BASE_SM1_ARGS), ("query", None, None),
+                                                          ("save", "sm1.f90", BASE["sm1.f90"].replace("ms", "ms_other"))],
+    "prototype_arguments_change_then_file_deleted": [("save", "sm1.f90", BASE_SM1_ARGS), ("query", None, None), ("delete", "sm1.f90", None)],
+    "function_prototype_changes_then_removed": [("save", "sf1.f90", BASE_SF1_ARGS), ("query", None, None),
+                                                ("save", "sf1.f90", BASE["sf1.f90"].replace("mf", "mf_other"))],
+    "function_prototype_changes_and_back": [("save", "sf1.f90", BASE_SF1_ARGS), ("query", None, None), ("save", "sf1.f90", BASE["sf1.f90"])],
+    "function_prototype_file_deleted": [("save", "sf1.f90", BASE_SF1_ARGS), ("query", None, None), ("delete", "sf1.f90", None)],
     "query_then_edit": [("query", None, None), ("save", "t.f90", BASE["t.f90"].replace("old_c", "new_c")),
                         ("save", "u.f90", BASE["u.f90"].replace("old_c", "new_c")),
                         ("save", "p.f90", BASE["p.f90"].replace("old_c", "new_c"))],
